@@ -56,7 +56,7 @@ theorem len3_eq_one {len : V3 α → α} (hl : LenSpec3 len) (x y z : α) (h : x
   · rw [e] at l0; linarith
 
 set_option maxHeartbeats 2000000 in
-theorem extractEulerXYZ_unit {tmin : α} {sqrt sin cos : α → α} {atan2 : α → α → α}
+theorem extractEulerXYZ_unit {tmin tmax : α} {sqrt sin cos : α → α} {atan2 : α → α → α}
     (ht : EulerTrigSpec sin cos atan2) (m : M44 α)
     (h0 : Gen.V3.length tmin tmax sqrt ⟨m.x00, m.x01, m.x02⟩ = 1) (h1 : Gen.V3.length tmin tmax sqrt ⟨m.x10, m.x11, m.x12⟩ = 1)
     (h2 : Gen.V3.length tmin tmax sqrt ⟨m.x20, m.x21, m.x22⟩ = 1) :
@@ -71,7 +71,7 @@ theorem extractEulerXYZ_unit {tmin : α} {sqrt sin cos : α → α} {atan2 : α 
   <;> (congr 1 <;> congr 1 <;> first | ring | (congr 1; ring))
 
 /-- C11's and C12's extracted copies of `extractEulerXYZ` are the same function -/
-theorem extractEulerXYZ_copies_agree {tmin : α} {sqrt sin cos : α → α} {atan2 : α → α → α} (m : M44 α) :
+theorem extractEulerXYZ_copies_agree {tmin tmax : α} {sqrt sin cos : α → α} {atan2 : α → α → α} (m : M44 α) :
     Gen.M44.extractEulerXYZ tmin tmax sqrt sin cos atan2 m = Gen.Euler.extractEulerXYZ tmin tmax sqrt sin cos atan2 m := rfl
 
 /-- `rotH3` (C12's "rotation" factor) is `Matrix44::setEulerAngles` -/
@@ -87,7 +87,7 @@ theorem transpose_eq_adjugate {A : Matrix (Fin 3) (Fin 3) α} (ho : A * Aᵀ = 1
     _ = A.adjugate := by rw [← Matrix.mul_assoc, h1, Matrix.one_mul]
 
 /-- the Euler round trip for `extractEulerXYZ`, every rotation matrix (gimbal lock included) -/
-theorem rotH3_extractEulerXYZ {tmin : α} {sqrt sin cos : α → α} {atan2 : α → α → α}
+theorem rotH3_extractEulerXYZ {tmin tmax : α} {sqrt sin cos : α → α} {atan2 : α → α → α}
     (hs : SqrtSpec sqrt) (ht : EulerTrigSpec sin cos atan2) (R : M44 α)
     (ho : lin3 R * (lin3 R)ᵀ = 1) (hd : (lin3 R).det = 1) :
     rotH3 sin cos (Gen.M44.extractEulerXYZ tmin tmax sqrt sin cos atan2 R) = linH3 R := by
@@ -233,8 +233,8 @@ theorem eulerTrigSpec_real : EulerTrigSpec Real.sin Real.cos Euler.atan2R where
     · simp only [Euler.atan2R]; rw [Complex.sin_arg, hn]; field_simp
 
 /-- the round trip over ℝ, every rotation matrix (no gimbal-lock exclusion) -/
-theorem rotH3_extractEulerXYZ_real (tmin : ℝ) (R : M44 ℝ) (ho : lin3 R * (lin3 R)ᵀ = 1) (hd : (lin3 R).det = 1) :
-    rotH3 Real.sin Real.cos (Gen.M44.extractEulerXYZ tmin Real.sqrt Real.sin Real.cos Euler.atan2R R) = linH3 R :=
+theorem rotH3_extractEulerXYZ_real (tmin tmax : ℝ) (R : M44 ℝ) (ho : lin3 R * (lin3 R)ᵀ = 1) (hd : (lin3 R).det = 1) :
+    rotH3 Real.sin Real.cos (Gen.M44.extractEulerXYZ tmin tmax Real.sqrt Real.sin Real.cos Euler.atan2R R) = linH3 R :=
   rotH3_extractEulerXYZ sqrtSpec_real eulerTrigSpec_real R ho hd
 
 theorem M44_extractSHRT_recompose_real {tmin tmax : ℝ} {m : M44 ℝ} (ha : Affine3 m) {s h rot t : V3 ℝ}
@@ -243,7 +243,7 @@ theorem M44_extractSHRT_recompose_real {tmin tmax : ℝ} {m : M44 ℝ} (ha : Aff
   M44_extractSHRT_recompose sqrtSpec_real eulerTrigSpec_real ha hr
 
 theorem M44_sansScaling_recompose_real {tmin tmax : ℝ} {m : M44 ℝ} (ha : Affine3 m) {r : Res3 ℝ}
-    (he : ear44 tmax (Gen.V3.length tmin Real.sqrt) m = some r) :
+    (he : ear44 tmax (Gen.V3.length tmin tmax Real.sqrt) m = some r) :
     (Gen.M44.sansScaling tmin tmax Real.sqrt Real.sin Real.cos Euler.atan2R m).toMat =
       shearH3 r.shr * linH3 r.m * transH3 ⟨m.x30, m.x31, m.x32⟩ ∧
     scaleH3 r.scl * (Gen.M44.sansScaling tmin tmax Real.sqrt Real.sin Real.cos Euler.atan2R m).toMat = m.toMat :=
@@ -253,20 +253,20 @@ theorem M44_sansScaling_recompose_real {tmin tmax : ℝ} {m : M44 ℝ} (ha : Aff
 
 /-- on C11's open principal range, C11's theorem `extract (setEulerAngles a) = a` yields the same conclusion as
 `rotH3_extractEulerXYZ_real` for `R = setEulerAngles a` -/
-theorem eulerRoundTrip_principal_of_C11 (tmin : ℝ) (a : V3 ℝ) (h : C11.principal .XYZ a) :
-    rotH3 Real.sin Real.cos (Gen.M44.extractEulerXYZ tmin Real.sqrt Real.sin Real.cos Euler.atan2R
+theorem eulerRoundTrip_principal_of_C11 (tmin tmax : ℝ) (a : V3 ℝ) (h : C11.principal .XYZ a) :
+    rotH3 Real.sin Real.cos (Gen.M44.extractEulerXYZ tmin tmax Real.sqrt Real.sin Real.cos Euler.atan2R
         (Gen.Euler.M44_setEulerAngles Real.sin Real.cos a)) = linH3 (Gen.Euler.M44_setEulerAngles Real.sin Real.cos a) := by
-  rw [extractEulerXYZ_copies_agree, C11.extractEulerXYZ_inverts_setEulerAngles tmin a h, ← setEulerAngles_toMat]
+  rw [extractEulerXYZ_copies_agree, C11.extractEulerXYZ_inverts_setEulerAngles tmin tmax a h, ← setEulerAngles_toMat]
   simp only [Gen.Euler.M44_setEulerAngles, M44.toMat, linH3]
 
 /-- surjectivity for order XYZ (listed as missing in C11): EVERY rotation matrix is `setEulerAngles a`, with
 `a = extractEulerXYZ R` in the closed principal range `a.x, a.z ∈ (-π, π]`, `a.y ∈ [-π/2, π/2]` -/
-theorem rotation_is_setEulerAngles (tmin : ℝ) (R : M44 ℝ) (ho : lin3 R * (lin3 R)ᵀ = 1) (hd : (lin3 R).det = 1) :
-    ∃ a : V3 ℝ, a = Gen.Euler.extractEulerXYZ tmin Real.sqrt Real.sin Real.cos Euler.atan2R R ∧
+theorem rotation_is_setEulerAngles (tmin tmax : ℝ) (R : M44 ℝ) (ho : lin3 R * (lin3 R)ᵀ = 1) (hd : (lin3 R).det = 1) :
+    ∃ a : V3 ℝ, a = Gen.Euler.extractEulerXYZ tmin tmax Real.sqrt Real.sin Real.cos Euler.atan2R R ∧
       linH3 (Gen.Euler.M44_setEulerAngles Real.sin Real.cos a) = linH3 R ∧
       a.x ∈ Set.Ioc (-Real.pi) Real.pi ∧ a.y ∈ Set.Icc (-(Real.pi / 2)) (Real.pi / 2) ∧ a.z ∈ Set.Ioc (-Real.pi) Real.pi := by
   refine ⟨_, rfl, ?_, ?_⟩
-  · rw [← extractEulerXYZ_copies_agree, ← rotH3_extractEulerXYZ_real tmin R ho hd, ← setEulerAngles_toMat]
+  · rw [← extractEulerXYZ_copies_agree, ← rotH3_extractEulerXYZ_real tmin tmax R ho hd, ← setEulerAngles_toMat]
     simp only [Gen.Euler.M44_setEulerAngles, M44.toMat, linH3]
   · have r00 := congrFun (congrFun ho 0) 0
     have r11 := congrFun (congrFun ho 1) 1
@@ -325,27 +325,27 @@ theorem ear44_W {tmax : α} (ht : 1 < tmax) {len : V3 α → α} (hl : LenSpec3 
 /-- over ℝ: `extractSHRT` succeeds on `W` with scale (5, 10, 2), shear (1, 0, 0), translation (7, 8, 9) … -/
 theorem extractSHRT_W :
     Gen.M44.extractSHRT (1 / 1024 : ℝ) 2 Real.sqrt Real.sin Real.cos Euler.atan2R W =
-      (true, ⟨5, 10, 2⟩, ⟨1, 0, 0⟩, Gen.M44.extractEulerXYZ (1 / 1024) Real.sqrt Real.sin Real.cos Euler.atan2R WR, ⟨7, 8, 9⟩) := by
+      (true, ⟨5, 10, 2⟩, ⟨1, 0, 0⟩, Gen.M44.extractEulerXYZ (1 / 1024) 2 Real.sqrt Real.sin Real.cos Euler.atan2R WR, ⟨7, 8, 9⟩) := by
   rw [M44_extractSHRT, ear44_W (by norm_num) (V3_length_spec sqrtSpec_real)]
   rfl
 
 /-- … and the four factors multiply back to `W` -/
 example : scaleH3 (⟨5, 10, 2⟩ : V3 ℝ) * shearH3 ⟨1, 0, 0⟩ *
-      rotH3 Real.sin Real.cos (Gen.M44.extractEulerXYZ (1 / 1024) Real.sqrt Real.sin Real.cos Euler.atan2R WR) *
+      rotH3 Real.sin Real.cos (Gen.M44.extractEulerXYZ (1 / 1024) 2 Real.sqrt Real.sin Real.cos Euler.atan2R WR) *
       transH3 ⟨7, 8, 9⟩ = (W : M44 ℝ).toMat :=
   M44_extractSHRT_recompose_real ⟨rfl, rfl, rfl, rfl⟩ extractSHRT_W
 
 /-- the hypotheses of `M44_sansScaling_recompose` / `M44_removeScaling_recompose` hold for `W` -/
 example : Affine3 (W : M44 ℝ) ∧
-    ear44 (2 : ℝ) (Gen.V3.length (1 / 1024 : ℝ) Real.sqrt) W = some ⟨WR, ⟨5, 10, 2⟩, ⟨1, 0, 0⟩⟩ :=
+    ear44 (2 : ℝ) (Gen.V3.length (1 / 1024 : ℝ) 2 Real.sqrt) W = some ⟨WR, ⟨5, 10, 2⟩, ⟨1, 0, 0⟩⟩ :=
   ⟨⟨rfl, rfl, rfl, rfl⟩, ear44_W (by norm_num) (V3_length_spec sqrtSpec_real)⟩
 
 /-- a rotation AT gimbal lock (90° about Y: `R02 = -1`, `R12 = R22 = 0`) -/
 def G : M44 ℝ := ⟨0, 0, -1, 0, 0, 1, 0, 0, 1, 0, 0, 0, 0, 0, 0, 1⟩
 
 /-- the round trip holds at gimbal lock too -/
-example : rotH3 Real.sin Real.cos (Gen.M44.extractEulerXYZ (1 / 1024) Real.sqrt Real.sin Real.cos Euler.atan2R G) = linH3 G :=
-  rotH3_extractEulerXYZ_real _ G
+example : rotH3 Real.sin Real.cos (Gen.M44.extractEulerXYZ (1 / 1024) 2 Real.sqrt Real.sin Real.cos Euler.atan2R G) = linH3 G :=
+  rotH3_extractEulerXYZ_real _ _ G
     (by ext i j; fin_cases i <;> fin_cases j <;> simp [G, lin3, Matrix.mul_apply, Fin.sum_univ_three])
     (by simp [G, lin3, Matrix.det_fin_three])
 
